@@ -435,6 +435,32 @@ func fixedC14(r *Rec, tier string, shard, nshards int) []*Case {
 				r.NonTrivial("f\x00"+fam.name+"\x00"+itoa(n), nil)
 			}
 		}
+		// ---- token lists with every kind of separator: rel, sandbox and class values are scanned token by
+		// token; a separator one scanner knows and another does not must not stop progress
+		{
+			spec := &Spec{Base: "New", Ops: []Op{{Kind: "AllowAttrs", Attrs: []string{"href", "rel", "target", "sandbox", "class", "src"}, ValRe: -1, Scope: "global"},
+				{Kind: "AllowElements", Names: []string{"a", "area", "link", "iframe"}, ValRe: -1}, {Kind: "AllowStandardURLs", ValRe: -1},
+				{Kind: "RequireNoReferrerOnLinks", B: true, ValRe: -1}, {Kind: "AddTargetBlankToFullyQualifiedLinks", B: true, ValRe: -1},
+				{Kind: "RequireSandboxOnIFrame", Vals: []int{2, 10}, ValRe: -1}}}
+			pol := Build(spec, nil)
+			seps := []string{" ", "\t", "\n", "\f", "\r", "\v", "\u00a0", "\u0085", "\u2003", "\u3000", "\x00", "\f\f", " \f ", "\f "}
+			for _, sep := range seps {
+				for _, toks := range [][]string{{"author", "help"}, {"nofollow", "noopener"}, {"allow-forms", "allow-scripts"}, {"", "x"}, {"x", ""}} {
+					v := toks[0] + sep + toks[1]
+					in := `<a href="http://example.com/x" rel="` + escAttr(v, '"') + `" target="_blank">y</a><link href="/x" rel="` + escAttr(v, '"') + `"><iframe src="http://example.com/" sandbox="` + escAttr(v, '"') + `"></iframe>`
+					c := &Case{Kind: "soup", Spec: spec, Input: BStr(in)}
+					res := timedCall(soupBudget, func() string { return pol.Sanitize(in) })
+					evals++
+					if res.panicked != nil {
+						hardFail(c, r, fmt.Sprintf("C14: Sanitize panics on the token list %s: %v", q(v), res.panicked))
+					}
+					if res.timedOut {
+						hardFail(c, r, fmt.Sprintf("C14: Sanitize does not return within %v on the %d-byte input %s", soupBudget, len(in), q(in)))
+					}
+				}
+			}
+			r.ClassN("token_list_separators", len(seps)*5)
+		}
 		// ---- URL corners: every URL string of the pools at every src/href/cite position under
 		// policies with and without a rewriter, with and without URL validation
 		urlPolicies := []*Spec{
